@@ -2187,7 +2187,7 @@ func TestVerif(t *testing.T) {
 	enumUploads(t, run.Scale(4, 5))
 	enumTokens(t, run.Scale(2, 3))
 	nScripts := run.Scale(2500, 400000)
-	nPoints := run.Scale(20000, 4000000)
+	nPoints := run.Scale(20000, 3000000)
 	nBig := run.Scale(6, 200)
 	for i := 0; i < nScripts; i++ {
 		scriptCaseRun(t, genScript(r, false))
